@@ -34,7 +34,7 @@ struct Merged {
     samples: Vec<Value>,
     extra: BTreeMap<String, Value>,
     capped: Vec<String>,
-    per_profile: BTreeMap<String, (u64, u64)>,
+    per_profile: BTreeMap<String, (u64, u64, u64)>,
     nontrivial: HashSet<u64>,
     nontrivial_mod: u64,
     crashes: u64,
@@ -48,9 +48,10 @@ fn merge_worker(m: &mut Merged, v: &Value, hashes: &Path) {
     m.cases += g("cases");
     m.nontrivial_mod = m.nontrivial_mod.max(g("nontrivial_mod"));
     let profile = v.get("profile").and_then(|x| x.as_str()).unwrap_or("?").to_string();
-    let e = m.per_profile.entry(profile.clone()).or_insert((0, 0));
+    let e = m.per_profile.entry(profile.clone()).or_insert((0, 0, 0));
     e.0 += g("executions");
     e.1 += g("states");
+    e.2 += g("transitions");
     for (name, dst) in [("hist", &mut m.hist), ("guards", &mut m.guards)] {
         if let Some(o) = v.get(name).and_then(|x| x.as_object()) {
             for (k, c) in o {
@@ -179,10 +180,32 @@ fn parse_crash(pre: &Path) -> Option<(String, u64, u64)> {
     Some((kind, sig, case))
 }
 
+/// Parse /verif/known_findings.txt: only `known:` lines suppress anything.
 pub fn known_findings() -> Vec<Value> {
-    read_json(&Path::new(VERIF_ROOT).join("known_findings.json"))
-        .and_then(|v| v.get("findings").and_then(|x| x.as_array()).cloned())
-        .unwrap_or_default()
+    let text = std::fs::read_to_string(Path::new(VERIF_ROOT).join("known_findings.txt")).unwrap_or_default();
+    let mut out = Vec::new();
+    for line in text.lines() {
+        let line = line.trim();
+        let (status, rest) = if let Some(r) = line.strip_prefix("known:") {
+            ("known", r.trim())
+        } else if let Some(r) = line.strip_prefix("fixed:") {
+            ("fixed", r.trim())
+        } else {
+            continue;
+        };
+        let Some(r) = rest.strip_prefix("property=") else { continue };
+        let (prop, r) = r.split_once(' ').unwrap_or((r, ""));
+        let mut sig = String::new();
+        let mut what = r.to_string();
+        if let Some(q) = r.strip_prefix("sig=\"") {
+            if let Some(end) = q.find('"') {
+                sig = q[..end].to_string();
+                what = q[end + 1..].trim().to_string();
+            }
+        }
+        out.push(json!({"property": prop, "status": status, "signature": sig, "what": what}));
+    }
+    out
 }
 
 fn sig_hash(s: &str) -> String {
@@ -458,6 +481,10 @@ fn run_inner(def: &PropDef, tier: Tier, seed: u64, jobs_max: usize, scratch: &Pa
 
     // evidence
     let wall = t0.elapsed().as_secs_f64();
+    // both profiles walk the same choice tree: report the tree once (the larger count), the
+    // executions of both
+    merged.states = merged.per_profile.values().map(|v| v.1).max().unwrap_or(0);
+    merged.transitions = merged.per_profile.values().map(|v| v.2).max().unwrap_or(0);
     let exhaustive = merged.capped.is_empty() && machinery_errors.is_empty();
     let mut coverage = serde_json::Map::new();
     coverage.insert("states".into(), json!(merged.states.max(1)));
@@ -484,7 +511,7 @@ fn run_inner(def: &PropDef, tier: Tier, seed: u64, jobs_max: usize, scratch: &Pa
     coverage.insert("vacuity_guards".into(), json!(merged.guards));
     coverage.insert(
         "per_profile".into(),
-        json!(merged.per_profile.iter().map(|(k, v)| (k.clone(), json!({"executions": v.0, "states": v.1}))).collect::<BTreeMap<_, _>>()),
+        json!(merged.per_profile.iter().map(|(k, v)| (k.clone(), json!({"executions": v.0, "states": v.1, "transitions": v.2}))).collect::<BTreeMap<_, _>>()),
     );
     coverage.insert("workers".into(), json!({"shards": nshards, "profiles": def.profiles}));
     coverage.insert("crashes_attributed".into(), json!(merged.crashes));
